@@ -16,7 +16,11 @@ static Config g_cfg;
 static std::atomic<int> g_turn{-1};
 static std::atomic<int> g_registered{0};
 static std::atomic<int> g_done{0};
-static int g_state[MAXT];          // 1 runnable, 2 finished (touched only by the token holder / before start)
+static int g_state[MAXT];          // 1 runnable, 2 finished, 3 stalled (touched only by the token holder / before start)
+static uint64_t g_wake[MAXT];      // step at which a stalled thread becomes runnable again
+static uint64_t g_stall_begin[MAXT];
+static uint64_t g_spin_run[MAXT];  // consecutive spin yields of a thread
+static bool g_stall_fired;
 static long g_prio[MAXT];
 static uint64_t g_change[16];
 static long g_lowest;
@@ -49,6 +53,21 @@ void configure(const Config& c) {
   for (int i = 0; i < g_cfg.nthreads; i++) g_prio[i] = 1000 + (long)(sim::hdec(c.seed, 0, 11, (uint64_t)i) % 1000) * 8 + i;
   for (int i = 0; i < 16; i++) g_change[i] = i < g_cfg.pct_depth ? sim::hdec(c.seed, 0, 12, (uint64_t)i) % (uint64_t)(g_cfg.pct_horizon > 0 ? g_cfg.pct_horizon : 1) : ~0ull;
   g_lowest = 0;
+  g_stall_fired = false;
+  for (int i = 0; i < MAXT; i++) { g_wake[i] = 0; g_stall_begin[i] = 0; g_spin_run[i] = 0; }
+}
+
+static void wake_due(bool force_earliest) {
+  int earliest = -1;
+  for (int i = 0; i < g_cfg.nthreads; i++) if (g_state[i] == 3) {
+    if (g_wake[i] <= g_st.steps) { g_state[i] = 1; g_st.stall_steps += g_st.steps - g_stall_begin[i]; }
+    else if (earliest < 0 || g_wake[i] < g_wake[earliest]) earliest = i;
+  }
+  if (force_earliest && earliest >= 0) {   // nothing else can run: the stall ends early (time jumps)
+    bool any = false;
+    for (int i = 0; i < g_cfg.nthreads; i++) if (g_state[i] == 1) any = true;
+    if (!any) { g_state[earliest] = 1; g_st.stalls_cut_short++; g_st.stall_steps += g_st.steps - g_stall_begin[earliest]; }
+  }
 }
 
 static int pick(int exclude) {
@@ -75,6 +94,7 @@ void thread_begin(int tid) {
 void thread_end(int tid) {
   g_state[tid] = 2;
   t_tid = -1;
+  wake_due(true);
   int next = pick(-1);
   g_done.fetch_add(1, std::memory_order_acq_rel);
   give(next);           // -2 when everybody is finished
@@ -87,7 +107,8 @@ void yield(int tag) {
   g_st.steps++;
   g_st.trace_hash = (g_st.trace_hash ^ (uint64_t)(me * 16 + tag)) * 0x100000001b3ULL;
   if (tag == 1) g_st.lock_attempts++;
-  if (tag == 2) g_st.spin_hits++;
+  if (tag == 2) { g_st.spin_hits++; if (++g_spin_run[me] > g_st.max_spin_run) g_st.max_spin_run = g_spin_run[me]; } else g_spin_run[me] = 0;
+  wake_due(false);
   if (g_st.steps > g_cfg.max_steps) {
     g_st.step_bound_hit = true;
     if (on_step_bound) on_step_bound();
@@ -98,6 +119,18 @@ void yield(int tag) {
   // a spinning thread drops below everybody else, otherwise two high-priority spinners could
   // hand the token to each other forever while the lock holder never runs
   if (tag == 2 && g_cfg.mode == PCT) g_prio[me] = --g_lowest;
+  if (!g_stall_fired && g_st.steps >= g_cfg.stall_at && g_cfg.stall_len > 0 && (tag == 3 || tag == 4 || g_cfg.stall_any)) {
+    g_stall_fired = true;
+    g_state[me] = 3; g_wake[me] = g_st.steps + g_cfg.stall_len; g_stall_begin[me] = g_st.steps;
+    g_st.stalls++;
+    if (tag == 3 || tag == 4) g_st.stalls_in_cs++;
+    wake_due(true);                      // nobody else runnable: the stall is over at once
+    if (g_state[me] == 1) return;
+    g_st.switches++;
+    give(pick(-1));
+    wait_turn(me);
+    return;
+  }
   int next = pick(tag == 2 ? me : -1);
   if (next == me || next < 0) return;
   if (tag == 3 || tag == 4) g_st.preempt_in_cs++;
